@@ -10,7 +10,7 @@ RULE = ("script families (canonical templates x random payloads; every one-byte 
         "printed address decoded by an independent Base58Check/Bech32(m) decoder; a sample is embedded in chains and observed "
         "black-box (csvdump address column, unspent dump, simplestats type table, opreturn). recur_far: 2^16+ distinct destinations "
         "evaluated in ONE process, then destinations from all over that history return, unchanged and in another role. "
-        "distinct = (family, rule set, observed type, address present) signatures")
+        "Black-box: other spellings of the coin name are tried - refused is fine, accepted must mean the named coin. Key material: real curve points in every SEC1 form. distinct = (family, rule set, observed type, address present) signatures")
 
 
 def plan(chk):
